@@ -48,7 +48,7 @@ Qed.
 
 (* ================================================================== *)
 (* ---- induction principle for the nested inductive [json] ---- *)
-From V Require Import C11.Scope.
+From V Require Import C11.SortLemmas C11.Scope.
 Local Open Scope string_scope.
 Local Open Scope Z_scope.
 
@@ -109,12 +109,90 @@ Lemma s_dot_slash : s_ "./" = dot_slash. Proof. reflexivity. Qed.
 Lemma s_dotdot_slash : s_ "../" = dotdot_slash. Proof. reflexivity. Qed.
 Lemma s_slash : s_ "/" = [ch_slash]. Proof. reflexivity. Qed.
 
+(* ---- unfolding lemmas for the scope predicates ---- *)
+Lemma json_ok_str imp s : json_ok imp (JStr s) = target_ok imp s. Proof. reflexivity. Qed.
+Lemma json_ok_arr imp l : json_ok imp (JArr l) = forallb (json_ok imp) l. Proof. reflexivity. Qed.
+Lemma json_ok_obj imp kvs :
+  json_ok imp (JObj kvs) = obj_ok kvs && forallb (fun kv => json_ok imp (snd kv)) kvs.
+Proof. reflexivity. Qed.
+Lemma obj_ok_old kvs :
+  obj_ok kvs = consistent_keys (map fst kvs)
+               && negb (existsb (fun kv => is_array_index (fst kv)) kvs)
+               && nodupb (map fst kvs).
+Proof.
+  unfold obj_ok, obj_no_shape, shape_mixed_keys, shape_index_key, shape_dup_key.
+  rewrite !negb_involutive, andb_true_r. reflexivity.
+Qed.
+Lemma pm_ok_old p :
+  pm_ok p = Bool.eqb (find_invalid_segment p) (node_invalid_segments p)
+            && (find_invalid_segment p || url_plain p).
+Proof. unfold pm_ok, shape_segment_match, fragment_match. rewrite negb_involutive. reflexivity. Qed.
+
+Lemma url_plain_sep c : url_plain_char c = true -> is_sep c = Z.eqb ch_slash c.
+Proof.
+  intros H. unfold is_sep. rewrite (Z.eqb_sym ch_slash c).
+  destruct (c =? ch_bslash) eqn:E; [|apply orb_false_r].
+  apply Z.eqb_eq in E. subst c. discriminate H.
+Qed.
+
+(* a target "./rest" without invalid segment, URL-plain and without empty
+   segment consists of ordinary segments only: path.Join is a concatenation *)
+Lemma ordinary_of_scope t :
+  prefixb dot_slash t = true -> find_invalid_segment t = false -> url_plain t = true ->
+  no_empty_segment (skipn 2 t) = true ->
+  t = ch_dot :: ch_slash :: skipn 2 t /\ ordinary_path (skipn 2 t) = true.
+Proof.
+  intros Hpre Hfi Hplain Hne.
+  destruct t as [|a [|b rest]]; try discriminate.
+  cbn [prefixb dot_slash] in Hpre. apply andb_true_iff in Hpre as [Ha Hb].
+  apply andb_true_iff in Hb as [Hb _]. apply Z.eqb_eq in Ha. apply Z.eqb_eq in Hb. subst a b.
+  cbn [skipn] in *. split; [reflexivity|].
+  unfold find_invalid_segment in Hfi.
+  assert (Hsp : split_on is_sep (ch_dot :: ch_slash :: rest) = [ch_dot] :: split_on (Z.eqb ch_slash) rest).
+  { rewrite (split_on_ext is_sep (Z.eqb ch_slash)).
+    - reflexivity.
+    - unfold url_plain in Hplain. apply Forall_forall. intros c Hc. apply url_plain_sep.
+      rewrite forallb_forall in Hplain. apply Hplain. exact Hc. }
+  rewrite Hsp in Hfi. clear Hsp Hplain. unfold ordinary_path, no_empty_segment in *.
+  apply negb_true_iff in Hne.
+  induction (split_on (Z.eqb ch_slash) rest) as [|g r IH]; [reflexivity|].
+  cbn [existsb forallb] in *. apply orb_false_iff in Hfi as [Hg Hr]. apply orb_false_iff in Hne as [Hg0 Hr0].
+  rewrite (IH Hr Hr0), andb_true_r. unfold ordinary_seg. unfold bad_segment in Hg.
+  apply orb_false_iff in Hg as [Hg _]. apply orb_false_iff in Hg as [Hg1 Hg2].
+  rewrite Hg0, Hg1, Hg2. reflexivity.
+Qed.
+
+(* the form used by the proofs below *)
+Definition target_ok' (imp : bool) (t : str) : bool :=
+  if prefixb dot_slash t then
+    Bool.eqb (find_invalid_segment t) (node_invalid_segments (skipn 2 t))
+    && (find_invalid_segment t
+        || (url_plain t
+            && str_eqb (path_join2 slash_s t) (ch_slash :: skipn 2 t)
+            && str_eqb (path_clean (ch_slash :: skipn 2 t)) (ch_slash :: skipn 2 t)))
+  else negb (imp && is_valid_url t).
+
+Lemma target_ok_old imp t : target_ok imp t = true -> target_ok' imp t = true.
+Proof.
+  unfold target_ok, target_no_shape, shape_segment_target, shape_url_target, fragment_target, target_ok'.
+  intros H. apply andb_true_iff in H as [H Hfrag]. apply andb_true_iff in H as [Hseg Hurl].
+  destruct (prefixb dot_slash t) eqn:Epre; cbn [andb negb] in *.
+  - rewrite negb_involutive in Hseg. rewrite Hseg. cbn [andb].
+    destruct (find_invalid_segment t) eqn:Efi; [reflexivity|]. cbn [negb orb] in *.
+    apply andb_true_iff in Hfrag as [Hplain Hne].
+    destruct (ordinary_of_scope t Epre Efi Hplain Hne) as [Ht Hord].
+    rewrite Hplain. cbn [andb]. apply andb_true_iff. split; apply str_eqb_eq.
+    + rewrite Ht at 1. apply path_join_root_dot. exact Hord.
+    + apply path_clean_rooted. exact Hord.
+  - destruct imp; [|reflexivity]. cbn [andb] in *. exact Hurl.
+Qed.
+
 (* ---- PACKAGE_TARGET_RESOLVE, string case ---- *)
 Lemma target_string_eq imp t pm :
   target_ok imp t = true -> pm_ok_opt pm = true ->
   proj (target_string slash_s t (sub_of pm) (pat_of pm) imp) = target_string_spec t pm imp.
 Proof.
-  intros Ht Hp. unfold target_string, target_string_spec, target_ok in *.
+  intros Ht Hp. apply target_ok_old in Ht. unfold target_string, target_string_spec, target_ok' in *.
   rewrite s_dot_slash, s_dotdot_slash, s_slash.
   assert (E1 : negb (pat_of pm) && negb (str_eqb (sub_of pm) []) && negb (suffixb [ch_slash] t) = false).
   { destruct pm; cbn; reflexivity. }
@@ -128,7 +206,7 @@ Proof.
     apply str_eqb_eq in Hc1. apply str_eqb_eq in Hc2. rewrite Hplain. cbn [negb].
     rewrite Hc1.
     destruct pm as [p|]; cbn [sub_of pat_of pm_ok_opt] in *.
-    + unfold pm_ok in Hp. apply andb_true_iff in Hp as [Hps Hpp]. apply Bool.eqb_prop in Hps.
+    + rewrite pm_ok_old in Hp. apply andb_true_iff in Hp as [Hps Hpp]. apply Bool.eqb_prop in Hps.
       rewrite <- Hps. destruct (find_invalid_segment p) eqn:Efp; [reflexivity|].
       cbn [orb] in Hpp. rewrite Hpp. cbn [negb].
       match goal with |- proj (_, if ?c then _ else _) = _ => destruct c end; reflexivity.
@@ -177,17 +255,17 @@ Lemma target_resolve_eq imp conds pm :
 Proof.
   intros Hp. induction j as [| s | | l IH | kvs IH] using json_ind'; intros Hok.
   - reflexivity.
-  - cbn [parse target_resolve target_resolve_spec]. apply target_string_eq; [exact Hok|exact Hp].
+  - cbn [parse target_resolve target_resolve_spec]. rewrite json_ok_str in Hok. apply target_string_eq; [exact Hok|exact Hp].
   - reflexivity.
-  - cbn [json_ok] in Hok. cbn [parse target_resolve target_resolve_spec].
+  - rewrite json_ok_arr in Hok. cbn [parse target_resolve target_resolve_spec].
     destruct l as [|x r]; [reflexivity|].
     set (l := x :: r) in *.
     transitivity (proj (arr_loop (fun v => target_resolve slash_s v (sub_of pm) (pat_of pm) imp conds)
                                  (map parse l) SUndefined)); [reflexivity|].
     rewrite (arr_loop_eq _ (fun v => target_resolve_spec v pm imp conds)); [reflexivity|].
     apply forallb_Forall in Hok. rewrite Forall_forall in *. intros v Hv. apply IH; auto.
-  - cbn [json_ok] in Hok. apply andb_true_iff in Hok as [Hobj Hvals].
-    unfold obj_ok in Hobj. apply andb_true_iff in Hobj as [Hobj Hnd].
+  - rewrite json_ok_obj in Hok. apply andb_true_iff in Hok as [Hobj Hvals].
+    rewrite obj_ok_old in Hobj. apply andb_true_iff in Hobj as [Hobj Hnd].
     apply andb_true_iff in Hobj as [Hcons Hidx]. apply negb_true_iff in Hidx.
     cbn [parse]. rewrite Hcons. cbn [target_resolve target_resolve_spec]. rewrite Hidx.
     apply obj_loop_eq.
@@ -311,6 +389,105 @@ Proof. destruct t; reflexivity. Qed.
 Lemma str_eqb_refl a : str_eqb a a = true.
 Proof. apply str_eqb_eq. reflexivity. Qed.
 
+Lemma key_ok_old mk k :
+  key_ok mk k = true ->
+  negb (ends_with_slash k) = true /\ str_eqb k (mk ++ [ch_star]) = false
+  /\ pm_ok (pattern_match_of mk k) = true.
+Proof.
+  unfold key_ok, key_documented, key_no_shape, key_fragment, shape_pattern_base, pm_ok.
+  intros H. apply andb_true_iff in H as [H Hf]. apply andb_true_iff in H as [Hd Hs].
+  apply andb_true_iff in Hs as [Hb Hm]. apply negb_true_iff in Hb.
+  repeat split; auto. rewrite Hm, Hf. reflexivity.
+Qed.
+
+(* ---- keys with several "*" never match a star-free match key ---- *)
+Lemma count_byte_app c a b : count_byte c (a ++ b) = (count_byte c a + count_byte c b)%nat.
+Proof. unfold count_byte. rewrite filter_app, app_length. reflexivity. Qed.
+
+Lemma index_byte_firstn_count c s i : index_byte c s = Some i -> count_byte c (firstn i s) = 0%nat.
+Proof.
+  revert i; induction s as [|x r IH]; intros i H; [discriminate|].
+  cbn [index_byte] in H. destruct (x =? c) eqn:E.
+  - injection H as <-. reflexivity.
+  - destruct (index_byte c r) as [j|] eqn:Ej; [|discriminate]. injection H as <-.
+    cbn [firstn]. unfold count_byte in *. cbn [filter]. rewrite Z.eqb_sym, E. apply IH. reflexivity.
+Qed.
+
+Lemma has_byte_skipn c n s : has_byte c (skipn n s) = true -> has_byte c s = true.
+Proof.
+  revert s; induction n as [|n IH]; intros s H; [exact H|].
+  destruct s as [|x r]; [exact H|]. cbn [skipn] in H. unfold has_byte in *. cbn [existsb].
+  rewrite (IH r H). apply orb_true_r.
+Qed.
+
+Lemma suffixb_has_byte c t m : suffixb t m = true -> has_byte c t = true -> has_byte c m = true.
+Proof.
+  unfold suffixb. intros H Ht. apply andb_true_iff in H as [_ H]. apply str_eqb_eq in H.
+  rewrite <- H in Ht. eapply has_byte_skipn. exact Ht.
+Qed.
+
+Lemma multi_star_no_match mk k star :
+  has_byte ch_star mk = false -> index_byte ch_star k = Some star ->
+  (count_byte ch_star k =? 1)%nat = false ->
+  prefixb (firstn star k) mk
+  && (str_eqb (skipn (S star) k) []
+      || (suffixb (skipn (S star) k) mk && (length k <=? length mk)%nat)) = false.
+Proof.
+  intros Hmk Hi Hc.
+  assert (Ht : has_byte ch_star (skipn (S star) k) = true).
+  { pose proof (index_byte_split _ _ _ Hi) as Hs.
+    pose proof (index_byte_firstn_count _ _ _ Hi) as H0.
+    assert (count_byte ch_star k = S (count_byte ch_star (skipn (S star) k))) as Hk.
+    { rewrite Hs at 1. rewrite count_byte_app, H0. unfold count_byte at 1. cbn [filter].
+      change (ch_star =? ch_star) with true. reflexivity. }
+    rewrite has_byte_count. rewrite Hk in Hc. destruct (count_byte ch_star (skipn (S star) k)); [discriminate|reflexivity]. }
+  destruct (skipn (S star) k) as [|x tr] eqn:Etr; [discriminate|].
+  change (str_eqb (x :: tr) []) with false. cbn [orb].
+  destruct (suffixb (x :: tr) mk) eqn:Es; [|rewrite andb_false_r; reflexivity].
+  rewrite (suffixb_has_byte ch_star _ _ Es Ht) in Hmk. discriminate.
+Qed.
+
+Lemma expansion_loop_skip mk imp conds (L : list (str * json)) :
+  has_byte ch_star mk = false ->
+  Forall (fun kv => has_byte ch_star (fst kv) = true) L ->
+  expansion_loop slash_s mk (map pp L) imp conds
+  = expansion_loop slash_s mk (map pp (filter (fun kv => (count_byte ch_star (fst kv) =? 1)%nat) L)) imp conds.
+Proof.
+  intros Hmk HL. induction HL as [|[k v] r Hk _ IH]; [reflexivity|].
+  cbn [filter fst] in *. destruct (count_byte ch_star k =? 1)%nat eqn:Ec.
+  - cbn [map pp fst snd expansion_loop]. rewrite IH. reflexivity.
+  - cbn [map pp fst snd expansion_loop]. rewrite has_byte_index in Hk.
+    destruct (index_byte ch_star k) as [star|] eqn:Ei; [|discriminate].
+    rewrite (multi_star_no_match mk k star Hmk Ei Ec). exact IH.
+Qed.
+
+(* esbuild's Less is a strict weak order on keys that contain "*" *)
+Lemma less_asym a b :
+  has_byte ch_star a = true -> has_byte ch_star b = true -> less a b = true -> less b a = false.
+Proof.
+  intros Ha Hb. unfold less, base_len. rewrite has_byte_index in Ha, Hb.
+  destruct (index_byte ch_star a) as [i|]; [|discriminate].
+  destruct (index_byte ch_star b) as [j|]; [|discriminate].
+  destruct (j <? i)%nat eqn:E1; destruct (i <? j)%nat eqn:E2;
+    destruct (length b <? length a)%nat eqn:E3; destruct (length a <? length b)%nat eqn:E4;
+    intros; try reflexivity; try discriminate; lia.
+Qed.
+
+Lemma less_negtrans a b c :
+  has_byte ch_star a = true -> has_byte ch_star b = true -> has_byte ch_star c = true ->
+  less b a = false -> less c b = false -> less c a = false.
+Proof.
+  intros Ha Hb Hc. unfold less, base_len. rewrite has_byte_index in Ha, Hb, Hc.
+  destruct (index_byte ch_star a) as [i|]; [|discriminate].
+  destruct (index_byte ch_star b) as [j|]; [|discriminate].
+  destruct (index_byte ch_star c) as [k|]; [|discriminate].
+  destruct (i <? j)%nat eqn:E1; destruct (j <? i)%nat eqn:E2; destruct (j <? k)%nat eqn:E3;
+    destruct (k <? j)%nat eqn:E4; destruct (i <? k)%nat eqn:E5; destruct (k <? i)%nat eqn:E6;
+    destruct (length a <? length b)%nat eqn:E7; destruct (length b <? length c)%nat eqn:E8;
+    destruct (length a <? length c)%nat eqn:E9;
+    intros; try reflexivity; try discriminate; lia.
+Qed.
+
 (* the loop over the sorted pattern keys *)
 Lemma expansion_loop_eq mk imp conds L :
   Forall (fun kv => has_byte ch_star (fst kv) = true /\ key_ok mk (fst kv) = true
@@ -322,8 +499,7 @@ Proof.
   rewrite has_byte_index in Hstar.
   destruct (index_byte ch_star k) as [star|] eqn:Estar; [|discriminate].
   set (base := firstn star k). set (trailer := skipn (S star) k).
-  unfold key_ok in Hkey. apply andb_true_iff in Hkey as [Hkey Hpm].
-  apply andb_true_iff in Hkey as [Hkey Hne]. apply negb_true_iff in Hne.
+  destruct (key_ok_old _ _ Hkey) as (Hkey0 & Hne & Hpm).
   unfold pattern_match_of in Hpm. rewrite Estar in Hpm. fold base trailer in Hpm.
   pose proof (index_byte_split _ _ _ Estar) as Hsplit. fold base trailer in Hsplit.
   rewrite str_eqb_nil_length.
@@ -344,13 +520,13 @@ Proof.
     apply (target_resolve_eq imp conds (Some _)); [exact Hpm|exact Hv].
 Qed.
 
-Lemma exists_key_false_count k :
-  negb (ends_with_slash k) = true -> (count_byte ch_star k <=? 1)%nat = true ->
-  is_expansion_key k = (count_byte ch_star k =? 1)%nat.
+Lemma filter_filter_imp {A} (p q : A -> bool) l :
+  (forall x, p x = true -> q x = true) -> filter p l = filter p (filter q l).
 Proof.
-  intros Hs Hc. unfold is_expansion_key. apply negb_true_iff in Hs. rewrite Hs. cbn [orb].
-  rewrite has_byte_count. destruct (count_byte ch_star k) as [|[|n]]; try reflexivity.
-  discriminate.
+  intros H. induction l as [|x r IH]; [reflexivity|]. cbn [filter].
+  destruct (p x) eqn:Ep.
+  - rewrite (H x Ep). cbn [filter]. rewrite Ep, IH. reflexivity.
+  - destruct (q x); cbn [filter]; rewrite ?Ep; exact IH.
 Qed.
 
 Lemma imports_exports_resolve_eq mk kvs imp conds :
@@ -359,11 +535,12 @@ Lemma imports_exports_resolve_eq mk kvs imp conds :
   proj (imports_exports_resolve mk (parse (JObj kvs)) slash_s imp conds)
   = imports_exports_resolve_spec mk kvs imp conds.
 Proof.
-  intros Hmk Hok Hkeys. cbn [json_ok] in Hok. apply andb_true_iff in Hok as [Hobj Hvals].
-  unfold obj_ok in Hobj. apply andb_true_iff in Hobj as [Hobj _]. apply andb_true_iff in Hobj as [Hcons _].
+  intros Hmk Hok Hkeys. rewrite json_ok_obj in Hok. apply andb_true_iff in Hok as [Hobj Hvals].
+  rewrite obj_ok_old in Hobj. apply andb_true_iff in Hobj as [Hobj _]. apply andb_true_iff in Hobj as [Hcons _].
   cbn [parse]. rewrite Hcons. fold pp.
   unfold imports_exports_resolve, imports_exports_resolve_spec. cbn [map_data expansion_keys].
-  unfold match_key_ok in Hmk. apply andb_true_iff in Hmk as [Hsl Hst]. rewrite Hsl, Hst. cbn [andb].
+  unfold match_key_ok in Hmk. apply andb_true_iff in Hmk as [Hsl Hst].
+  pose proof Hst as Hst'. unfold shape_star_specifier in Hst'. rewrite Hsl, Hst'. cbn [andb].
   rewrite value_for_key_map.
   apply forallb_Forall in Hvals. apply forallb_Forall in Hkeys.
   destruct (assoc_first mk kvs) as [v|] eqn:Ea; cbn [option_map].
@@ -373,18 +550,32 @@ Proof.
     cbn [assoc_first] in Ea. inversion Hvals; subst.
     destruct (str_eqb k' mk); [injection Ea as <-; assumption|]. apply IH; assumption.
   - rewrite (filter_map_pp is_expansion_key). rewrite isort_by_map.
+    (* without "/" keys the expansion keys are the keys containing "*" *)
     rewrite (filter_ext_Forall (fun kv => is_expansion_key (fst kv))
-                               (fun kv => (count_byte ch_star (fst kv) =? 1)%nat)).
+                               (fun kv => has_byte ch_star (fst kv))).
     2:{ rewrite Forall_forall in *. intros kv Hin. specialize (Hkeys kv Hin). cbn beta in Hkeys.
-        unfold key_ok in Hkeys. apply andb_true_iff in Hkeys as [Hk _]. apply andb_true_iff in Hk as [Hk _].
-        apply andb_true_iff in Hk as [Hk1 Hk2]. apply exists_key_false_count; assumption. }
-    set (F := filter (fun kv => (count_byte ch_star (fst kv) =? 1)%nat) kvs).
+        destruct (key_ok_old _ _ Hkeys) as (Hk1 & _ & _). apply negb_true_iff in Hk1.
+        unfold is_expansion_key. rewrite Hk1. reflexivity. }
+    set (single := fun kv : str * json => (count_byte ch_star (fst kv) =? 1)%nat).
+    set (H := filter (fun kv => has_byte ch_star (fst kv)) kvs).
+    assert (HQ : Forall (fun kv => has_byte ch_star (fst kv) = true) H).
+    { unfold H. apply Forall_forall. intros kv Hin. apply filter_In in Hin as [_ Hc]. exact Hc. }
+    assert (HS : filter single kvs = filter single H).
+    { unfold H. apply filter_filter_imp. intros kv Hs. unfold single in Hs.
+      rewrite has_byte_count. apply Nat.eqb_eq in Hs. rewrite Hs. reflexivity. }
+    rewrite HS.
+    (* the keys with several "*" never match: drop them from esbuild's sorted list *)
+    apply negb_true_iff in Hst. unfold shape_star_specifier in Hst.
+    rewrite (expansion_loop_skip mk imp conds (isort_by less H) Hst).
+    2:{ apply (Forall_isort_by (fun kv => has_byte ch_star (fst kv) = true)). exact HQ. }
+    fold single.
+    rewrite (filter_isort less (fun k => has_byte ch_star k = true) less_asym less_negtrans single H HQ).
     assert (HF : Forall (fun kv => has_byte ch_star (fst kv) = true /\ key_ok mk (fst kv) = true
-                                   /\ json_ok imp (snd kv) = true) F).
-    { unfold F. rewrite Forall_forall in *. intros kv Hin. apply filter_In in Hin as [Hin Hc].
+                                   /\ json_ok imp (snd kv) = true) (filter single H)).
+    { rewrite <- HS. rewrite Forall_forall in *. intros kv Hin. apply filter_In in Hin as [Hin Hc].
       split; [|split; [apply Hkeys|apply Hvals]; assumption].
-      rewrite has_byte_count. apply Nat.eqb_eq in Hc. rewrite Hc. reflexivity. }
-    rewrite (isort_by_ext (fun k => has_byte ch_star k = true) less pkc_less F).
+      rewrite has_byte_count. unfold single in Hc. apply Nat.eqb_eq in Hc. rewrite Hc. reflexivity. }
+    rewrite <- (isort_by_ext (fun k => has_byte ch_star k = true) less pkc_less (filter single H)).
     + apply expansion_loop_eq. apply Forall_isort_by. exact HF.
     + intros a b Ha Hb. apply less_pkc; assumption.
     + rewrite Forall_forall in *. intros kv Hin. apply (HF kv Hin).
@@ -431,16 +622,16 @@ Qed.
 Lemma norm_id imp : forall j, json_ok imp j = true -> norm j = j.
 Proof.
   induction j as [| s | | l IH | kvs IH] using json_ind'; intros Hok; try reflexivity.
-  - cbn [json_ok] in Hok. cbn [norm]. f_equal. apply forallb_Forall in Hok.
+  - rewrite json_ok_arr in Hok. cbn [norm]. f_equal. apply forallb_Forall in Hok.
     rewrite <- (map_id l) at 2. apply map_ext_in. intros x Hx.
     rewrite Forall_forall in *. apply IH; auto.
-  - cbn [json_ok] in Hok. apply andb_true_iff in Hok as [Hobj Hvals]. cbn [norm].
+  - rewrite json_ok_obj in Hok. apply andb_true_iff in Hok as [Hobj Hvals]. cbn [norm].
     assert (E : map (fun kv => (fst kv, norm (snd kv))) kvs = kvs).
     { apply forallb_Forall in Hvals. rewrite <- (map_id kvs) at 2. apply map_ext_in.
       intros [k v] Hx. cbn [fst snd]. f_equal. rewrite Forall_forall in *.
       apply (IH (k, v) Hx). apply (Hvals (k, v) Hx). }
     rewrite E. f_equal. apply js_obj_id; [|reflexivity].
-    unfold obj_ok in Hobj. apply andb_true_iff in Hobj as [_ Hnd]. exact Hnd.
+    rewrite obj_ok_old in Hobj. apply andb_true_iff in Hobj as [_ Hnd]. exact Hnd.
 Qed.
 
 (* ================================================================== *)
@@ -526,8 +717,8 @@ Proof.
     destruct (str_eqb sub [ch_dot]); [|reflexivity].
     rewrite <- (TR (JArr l) Hok). apply finish_eq. reflexivity.
   - (* object *)
-    pose proof Hok as Hok'. cbn [json_ok] in Hok'. apply andb_true_iff in Hok' as [Hobj Hvals].
-    unfold obj_ok in Hobj. apply andb_true_iff in Hobj as [Hobj _]. apply andb_true_iff in Hobj as [Hcons _].
+    pose proof Hok as Hok'. rewrite json_ok_obj in Hok'. apply andb_true_iff in Hok' as [Hobj Hvals].
+    rewrite obj_ok_old in Hobj. apply andb_true_iff in Hobj as [Hobj _]. apply andb_true_iff in Hobj as [Hcons _].
     apply forallb_Forall in Hvals.
     destruct kvs as [|[k0 v0] r].
     + cbn. destruct (str_eqb sub [ch_dot]); [reflexivity|].
@@ -573,17 +764,16 @@ Lemma imports_resolve_eq_partial_all j spec conds :
   = coarse (node_imports_resolve spec j conds).
 Proof.
   unfold in_scope_imports. intros H. apply andb_true_iff in H as [H Hkeys].
-  apply andb_true_iff in H as [H Hhs]. apply andb_true_iff in H as [H Hh].
-  apply andb_true_iff in H as [Hmk Hok].
-  apply negb_true_iff in Hhs. apply negb_true_iff in Hh.
+  apply andb_true_iff in H as [H Hhs0]. apply andb_true_iff in H as [Hmk Hok].
+  apply negb_true_iff in Hhs0. unfold shape_hash_slash in Hhs0. apply orb_false_iff in Hhs0 as [Hh Hhs].
   unfold node_imports_resolve. rewrite (norm_id true j Hok).
   assert (Hsl : ends_with_slash spec = false).
   { unfold match_key_ok in Hmk. apply andb_true_iff in Hmk as [Hs _]. apply negb_true_iff in Hs. exact Hs. }
   rewrite Hsl. unfold imports_resolve_spec.
   change (s_ "#") with [ch_hash]. change (s_ "#/") with [ch_hash; ch_slash]. rewrite Hh, Hhs. cbn [orb].
   destruct j as [| t | l | kvs |]; try reflexivity.
-  pose proof Hok as Hok'. cbn [json_ok] in Hok'. apply andb_true_iff in Hok' as [Hobj _].
-  unfold obj_ok in Hobj. apply andb_true_iff in Hobj as [Hobj _]. apply andb_true_iff in Hobj as [Hcons _].
+  pose proof Hok as Hok'. rewrite json_ok_obj in Hok'. apply andb_true_iff in Hok' as [Hobj _].
+  rewrite obj_ok_old in Hobj. apply andb_true_iff in Hobj as [Hobj _]. apply andb_true_iff in Hobj as [Hcons _].
   assert (Hp : parse (JObj kvs) = PObj (map pp kvs)
                  (isort_by less (filter (fun e => is_expansion_key (fst e)) (map pp kvs)))).
   { cbn [parse]. rewrite Hcons. reflexivity. }
@@ -692,4 +882,64 @@ Lemma imports_resolve_eq_refuted_all :
 Proof.
   exists w_hash_slash, (s_ "#/a"), cN. split; [reflexivity|].
   intro H. vm_compute in H. discriminate H.
+Qed.
+
+(* ================================================================== *)
+(* ---- the in-scope domain is exactly: documented exclusions, modelled URL
+   fragment, and no recorded refuted shape ---- *)
+Lemma forallb_and {A} (p q : A -> bool) l :
+  forallb (fun x => p x && q x) l = forallb p l && forallb q l.
+Proof.
+  induction l as [|x r IH]; [reflexivity|]. cbn [forallb]. rewrite IH.
+  destruct (p x), (q x), (forallb p r), (forallb q r); reflexivity.
+Qed.
+
+Lemma forallb_ext_in {A} (p q : A -> bool) l :
+  Forall (fun x => p x = q x) l -> forallb p l = forallb q l.
+Proof. induction 1 as [|x r Hx _ IH]; [reflexivity|]. cbn. rewrite Hx, IH. reflexivity. Qed.
+
+Lemma json_all_and T1 T2 O1 O2 : forall j,
+  json_all (fun t => T1 t && T2 t) (fun k => O1 k && O2 k) j = json_all T1 O1 j && json_all T2 O2 j.
+Proof.
+  induction j as [| s | | l IH | kvs IH] using json_ind'; try reflexivity.
+  - cbn [json_all]. rewrite <- forallb_and. apply forallb_ext_in. exact IH.
+  - cbn [json_all]. rewrite (forallb_ext_in _ (fun kv => json_all T1 O1 (snd kv) && json_all T2 O2 (snd kv)) kvs IH).
+    rewrite forallb_and.
+    destruct (O1 kvs), (O2 kvs), (forallb (fun kv => json_all T1 O1 (snd kv)) kvs),
+      (forallb (fun kv => json_all T2 O2 (snd kv)) kvs); reflexivity.
+Qed.
+
+Lemma top_keys_split mk j :
+  top_keys (key_ok mk) j
+  = top_keys key_documented j && top_keys (key_no_shape mk) j && top_keys (key_fragment mk) j.
+Proof.
+  destruct j; try reflexivity. cbn [top_keys]. unfold key_ok.
+  rewrite (forallb_and (fun kv => key_documented (fst kv) && key_no_shape mk (fst kv))
+                       (fun kv => key_fragment mk (fst kv))).
+  rewrite (forallb_and (fun kv => key_documented (fst kv)) (fun kv => key_no_shape mk (fst kv))).
+  reflexivity.
+Qed.
+
+Lemma json_ok_split imp j :
+  json_ok imp j = json_all (target_no_shape imp) obj_no_shape j && json_all fragment_target (fun _ => true) j.
+Proof. unfold json_ok, target_ok, obj_ok. apply json_all_and. Qed.
+
+Lemma in_scope_exports_split_all j mk :
+  in_scope_exports j mk = documented_ok j mk && fragment_ok j mk && no_refuted_shape false j mk.
+Proof.
+  unfold in_scope_exports, documented_ok, fragment_ok, no_refuted_shape, match_key_ok.
+  rewrite json_ok_split, top_keys_split. cbn [andb negb].
+  destruct (negb (ends_with_slash mk)), (negb (shape_star_specifier mk)),
+    (json_all (target_no_shape false) obj_no_shape j), (json_all fragment_target (fun _ => true) j),
+    (top_keys key_documented j), (top_keys (key_no_shape mk) j), (top_keys (key_fragment mk) j); reflexivity.
+Qed.
+
+Lemma in_scope_imports_split_all j mk :
+  in_scope_imports j mk = documented_ok j mk && fragment_ok j mk && no_refuted_shape true j mk.
+Proof.
+  unfold in_scope_imports, documented_ok, fragment_ok, no_refuted_shape, match_key_ok.
+  rewrite json_ok_split, top_keys_split. cbn [andb].
+  destruct (negb (ends_with_slash mk)), (negb (shape_star_specifier mk)), (negb (shape_hash_slash mk)),
+    (json_all (target_no_shape true) obj_no_shape j), (json_all fragment_target (fun _ => true) j),
+    (top_keys key_documented j), (top_keys (key_no_shape mk) j), (top_keys (key_fragment mk) j); reflexivity.
 Qed.
